@@ -72,6 +72,11 @@ fn main() {
     // panics inside the subject are caught and reported as violations; keep stderr quiet
     std::panic::set_hook(Box::new(|info| {
         let msg = info.to_string();
+        if !msg.contains("a scoped thread panicked") {
+            if let Ok(mut g) = LAST_PANIC.lock() {
+                *g = msg.clone();
+            }
+        }
         if msg.contains("harness:") || std::env::var("VERIF_DEBUG").is_ok() {
             eprintln!("{}", msg);
         }
@@ -90,7 +95,23 @@ fn main() {
         }
     });
     let ctx = Ctx::new(thorough, seed, Duration::from_secs(budget));
-    let res = match prop.as_str() {
+    // a panic that escapes the per-execution catch_unwind is a bug of this machinery, not a verdict
+    let res = std::panic::catch_unwind(std::panic::AssertUnwindSafe(|| dispatch(&prop, &ctx)));
+    let res = match res {
+        Ok(r) => r,
+        Err(_) => {
+            println!("MACHINERY: the harness itself panicked ({}) - not a verdict", LAST_PANIC.lock().map(|g| g.replace('\n', " ")).unwrap_or_default());
+            std::process::exit(2);
+        }
+    };
+    std::process::exit(report::finish(&ctx, res));
+}
+
+static LAST_PANIC: std::sync::Mutex<String> = std::sync::Mutex::new(String::new());
+
+fn dispatch(prop: &str, ctx: &Ctx) -> report::CheckResult {
+    let ctx = ctx;
+    let res = match prop {
         "C01" => props::c01::run(&ctx),
         "C02" => props::c02::run(&ctx),
         "C03" => props::c03::run(&ctx),
@@ -114,5 +135,5 @@ fn main() {
             std::process::exit(2);
         }
     };
-    std::process::exit(report::finish(&ctx, res));
+    res
 }
